@@ -428,18 +428,9 @@ let run_stats (w : string list) : string =
         | M.Ok segs ->
           if segs = [] then "empty" else
           let axis (sel : M.segment -> M.q list) =
-            let (lo, hi, deg) = List.fold_left (fun (lo, hi, deg) (_, s) ->
-                let cs = M.make_bezier M.qOps { M.qnum = Z.one; M.qden = Z.one } (sel s) in
-                let one = { M.qnum = Z.one; M.qden = Z.one } and zero = { M.qnum = Z.zero; M.qden = Z.one } in
-                let (mxl, mxu) = M.poly_max (nat_of_int 14) cs zero one in
-                let (mnl, mnu) = M.poly_min (nat_of_int 14) cs zero one in
-                let d = List.length (sel s) - 1 in
-                ((match lo with None -> Some (mnl, mnu) | Some (a, b) -> Some ((if M.qle_bool mnl a then mnl else a), (if M.qle_bool mnu b then mnu else b))),
-                 (match hi with None -> Some (mxl, mxu) | Some (a, b) -> Some ((if M.qle_bool a mxl then mxl else a), (if M.qle_bool b mxu then mxu else b))),
-                 max deg d)) (None, None, 0) segs in
-            (match lo, hi with
-             | Some (a, b), Some (c, d) -> pr "%s:%s:%s:%s:%d" (string_of_q a) (string_of_q b) (string_of_q c) (string_of_q d) deg
-             | _ -> "?") in
+            (match M.axis_bounds sel segs with
+             | Some ((a, b), (c, d)) -> pr "%s:%s:%s:%s:%d" (string_of_q a) (string_of_q b) (string_of_q c) (string_of_q d) (int_of_nat (M.max_degree sel segs))
+             | None -> "?") in
           pr "ok x=%s y=%s z=%s" (axis (fun s -> s.M.sg_x)) (axis (fun s -> s.M.sg_y)) (axis (fun s -> s.M.sg_z))
         | r -> show_res_code (fun _ -> "0") r)
      | r -> "init:" ^ show_res_code (fun _ -> "0") r)
